@@ -93,6 +93,14 @@ def tiny_job(case):
         d = abs(a - b) / abs(b) if b != 0 and np.isfinite(a) and np.isfinite(b) else float("inf")
         lines.append(dict(what="tiny", case=case["id"], x=x, xq=int(round(x * 1e6)), xif=2.0, errs=[["tiny", int(min(round(d * 1e9), 2**30)) if np.isfinite(d) else 2**30]],
                           finite=bool(np.isfinite(d)), note=f"grid A {a!r}, grid B {b!r}"))
+    # below the lowest node there is nothing to interpolate: both grids (log interpolation) refuse the request
+    for lab, g, xb in (("A", A, A[0] * 0.5), ("A", A, A[0] * (1 - 1e-3)), ("C", cards.make_grid(10, 10, x_min=1e-3), 5e-4)):
+        try:
+            cards.run(cards.theory(mc=2.0, mb=5.0, mt=170.0, Q0=1.0, **th_kw), cards.obs({name: [dict(x=xb, Q2=Q2)]}, xgrid=g, deg=4, **ob_kw))
+            answered, note = 2**30, "answered"
+        except ValueError as ex:
+            answered, note = 0, f"refused: {str(ex)[:80]}"
+        lines.append(dict(what="below", case=case["id"] + "_" + lab, x=xb, xq=int(round(xb * 1e6)), xif=1.0, errs=[["below", answered]], finite=True, note=note))
     return lines
 
 
